@@ -1,4 +1,4 @@
-\* intended design: groups of 2..3 participants, 3 mutations, audit log of capacity 3
+\* intended design: groups of 2..3 participants, at most one idle participant at the start, 2 mutations, audit log of capacity 5
 SPECIFICATION Spec
 CONSTANTS
   Sizes = {2, 3}
